@@ -51,12 +51,12 @@ def configs(ctx):
             for mode in ("unchecked", "skip", "wrap"):
                 if not th and len(ss) == 2 and rng.random() < 0.75:
                     continue
-                out.append(dict(plain=plain, spans=ss, source=src, mode=mode, dmp=True))
+                out.append(dict(plain=plain, spans=ss, source=src, mode=mode, dmp=True, ba=rng.random() < 0.25))
     for _ in range(6000 if th else 700):
         p, s = AC.gen_pair(rng)
         k = rng.choice([1, 2, 3, 5])
         out.append(dict(plain=p, spans=AC.gen_spans(rng, len(p), k), source=rng.choice([s, s, s, None, p]),
-                        mode=rng.choice(["unchecked", "skip", "wrap"]), dmp=rng.random() < 0.6))
+                        mode=rng.choice(["unchecked", "skip", "wrap"]), dmp=rng.random() < 0.6, ba=rng.random() < 0.4))
     return out
 
 
